@@ -355,6 +355,22 @@ func c12GenHistory(rng *vlib.Rng, uid *int) c12History {
 				if p == "" {
 					p = "imports"
 				}
+				if rng.Chance(1, 4) {
+					// a "patch" for a name nobody has fed yet: it is the first file of that name
+					var fresh []string
+					for _, n := range c12Names {
+						if _, ok := contents[n]; !ok {
+							fresh = append(fresh, n)
+						}
+					}
+					if len(fresh) > 0 {
+						name := fresh[rng.Intn(len(fresh))]
+						content := fmt.Sprintf("<F%d>", *uid)
+						contents[name] = append(contents[name], content)
+						fd.Items = append(fd.Items, c12Item{Named: true, Name: name, Point: p, Content: content})
+						continue
+					}
+				}
 				fd.Items = append(fd.Items, c12Item{Named: true, Name: known[rng.Intn(len(known))], Point: p, Content: fmt.Sprintf("<N%d>", *uid)})
 			}
 		}
